@@ -21,6 +21,9 @@ type LexEntry struct {
 	NodeLevel bool   `json:"node_level"` // element = the node id; otherwise element = Element (a property IRI or a foreign id)
 	Element   string `json:"element,omitempty"`
 	Range     Range  `json:"range"`
+	// For > 0: the entry is the node-level entry of node For-1, but it is stored in the source map of the node
+	// that owns this list (the index is keyed by the element, whichever SourceMap node holds the entry)
+	For int `json:"for,omitempty"`
 }
 
 // SourceMaps describes the lexical information to attach to a graph.
@@ -48,6 +51,13 @@ func (s *SourceMaps) NodeRange(i int) (Range, bool) {
 	for _, e := range s.Entries[i] {
 		if e.NodeLevel {
 			return e.Range, true
+		}
+	}
+	for _, es := range s.Entries {
+		for _, e := range es {
+			if e.For == i+1 {
+				return e.Range, true
+			}
 		}
 	}
 	return Range{}, false
@@ -93,6 +103,9 @@ func (s *SourceMaps) Attach(g *Graph) *Graph {
 			el := e.Element
 			if e.NodeLevel {
 				el = g.Nodes[i].ID
+			}
+			if e.For > 0 {
+				el = g.Nodes[e.For-1].ID
 			}
 			ln := &Node{ID: fmt.Sprintf("%s/source-map/lexical/element_%d", g.Nodes[i].ID, k), Props: map[string][]Val{}}
 			ln.AddVal(SM+"element", LV(S(el)))
